@@ -1,1 +1,146 @@
-/-! C01 — property theorems (placeholder until the model exists). -/
+import EupsModel.Lemmas.SetupFrame
+/-! C01 — setup yields a consistent environment with no residue of superseded versions.
+Model: `EupsModel/Model/Setup.lean`; lemmas: `EupsModel/Lemmas/Setup*.lean`.
+
+`EnvOK`: (a) `DirOK` — every record names a declared version and `<P>_DIR` is its directory; (c) `NoResidue Empty` — every
+own element / envSet value / directory variable belongs to the recorded version of its product; `WellOwned` — the
+environment is one eups produced under the request's setup type (every own element comes from a line of its product's
+table).  Clause (b) (contributions present) is checked on the implementation by oracle (ii) only. -/
+namespace EupsModel.C01
+open EupsModel EupsModel.Setup
+
+/-! ## clause (a): `<P>_DIR` is the declared directory of the recorded version — every database, both directions -/
+
+theorem C01_dir_preserved (db : Db) (fuel : Nat) (fwd : Bool) (r : Request) (e : Setup.Env) (s' : St)
+    (hok : DirOK db e)
+    (h : (if fwd then runSetup db fuel r e else runUnsetup db fuel r e) = .ok s') : DirOK db s'.env := by
+  have key := setup_subjInv (r.cfg db) (fun _ _ => True) (DirOK db) (fun _ _ _ _ _ _ _ _ _ _ _ _ => trivial)
+    (dirOK_subjInv (r.cfg db)) fuel
+  cases fwd with
+  | true => exact key true 0 false r.vro r.name r.version none (St.init e) s' trivial (by intro n d x h; simp [St.init, aget] at h) hok h
+  | false => exact key false 0 false r.vro r.name none none (St.init e) s' trivial (by intro n d x h; simp [St.init, aget] at h) hok h
+
+/-! ## clause (c): no residue -/
+
+/-- unsetup direction: full (every database — name cycles included —, every fuel, every flag combination) -/
+theorem C01_unsetup_no_residue (db : Db) (fuel : Nat) (r : Request) (e : Setup.Env) (s' : St)
+    (hown : WellOwned (r.cfg db) e) (hres : NoResidue Empty e) (h : runUnsetup db fuel r e = .ok s') :
+    NoResidue Empty s'.env ∧ WellOwned (r.cfg db) s'.env ∧ s'.env.rec? r.name = none := by
+  obtain ⟨h1, h2⟩ := setup_false_spec (r.cfg db) fuel Empty 0 false r.vro r.name none none (St.init e) s' hown hres h
+  exact ⟨h1, hown.of_sub h2, setup_false_unsets (r.cfg db) fuel 0 false r.vro r.name none none (St.init e) s' hown h⟩
+
+/-- forward direction under `NameDag` (D17 is the excluded class): from every residue-free environment eups produced
+— populated ones, other versions of the same products set up, included — a successful request, whatever its flags
+(keep, max-depth, tags, inexact) and whatever the fuel, ends residue-free.  Diamonds, version conflicts between siblings and
+failing optional dependencies are inside the claim. -/
+theorem C01_no_residue_partial (db : Db) (rank : Name → Nat) (hdag : NameDag db rank) (fuel : Nat) (r : Request)
+    (e : Setup.Env) (s' : St) (hown : WellOwned (r.cfg db) e) (hres : NoResidue Empty e)
+    (h : runSetup db fuel r e = .ok s') : NoResidue Empty s'.env ∧ WellOwned (r.cfg db) s'.env :=
+  (setup_recOK (r.cfg db) rank hdag fuel).spec true 0 false r.vro r.name r.version none (St.init e) s'
+    (by intro n d x h; simp [St.init, aget] at h) hown hres h
+
+/-- `EnvOK` (clauses (a) and (c)) is preserved -/
+structure EnvOK (cfg : Cfg) (e : Setup.Env) : Prop where
+  dir : DirOK cfg.db e
+  noResidue : NoResidue Empty e
+  wellOwned : WellOwned cfg e
+
+theorem C01_envOK_preserved_partial (db : Db) (rank : Name → Nat) (hdag : NameDag db rank) (fuel : Nat) (r : Request)
+    (e : Setup.Env) (s' : St) (hok : EnvOK (r.cfg db) e) (h : runSetup db fuel r e = .ok s') :
+    EnvOK (r.cfg db) s'.env := by
+  obtain ⟨h1, h2⟩ := C01_no_residue_partial db rank hdag fuel r e s' hok.wellOwned hok.noResidue h
+  exact ⟨C01_dir_preserved db fuel true r e s' hok.dir h, h1, h2⟩
+
+/-! ## clause 4: an explicitly named version is the one set up -/
+
+theorem C01_explicit_version_partial (db : Db) (rank : Name → Nat) (hdag : NameDag db rank) (fuel : Nat)
+    (r : Request) (v : Ver) (hv : r.version = some (.explicit v)) (e : Setup.Env) (s' : St)
+    (h : runSetup db fuel r e = .ok s') : s'.env.rec? r.name = some v := by
+  unfold runSetup at h
+  cases fuel with
+  | zero => simp [setup_zero] at h
+  | succ k =>
+    rw [setup_succ_true] at h
+    have ha0 : AlreadyOK (r.cfg db).db (St.init e).already := by intro n d x h; simp [St.init, aget] at h
+    cases hres : resolve (r.cfg db).db (r.cfg db).keep (St.init e).already r.name r.version none 0 r.vro.length r.vro with
+    | none => rw [hres] at h; cases h
+    | error => rw [hres] at h; cases h
+    | found d reason =>
+      rw [hres] at h
+      obtain ⟨hc, hname⟩ := resolve_spec _ _ _ ha0 _ _ _ _ _ _ _ _ hres
+      rw [hv] at hres
+      have hver := resolve_explicit _ _ _ _ _ _ _ _ _ _ hres
+      have := install_top_record (r.cfg db) rank hdag (setup (r.cfg db) k) (setup_recOK (r.cfg db) rank hdag k)
+        false r.vro d reason hc _ s' (register_already (r.cfg db) 0 d reason (St.init e) ha0 hc) h
+      rw [← hname, ← hver]; exact this
+
+/-! ## D17: the full statement is false when a product name is reachable from one of its own versions -/
+
+def nTop : Name := [116]
+def nA : Name := [97]
+def nB : Name := [98]
+def nC : Name := [99]
+def v1 : Ver := [49]
+def v2 : Ver := [50]
+def PATH : Str := [80]
+def ALATE : Str := [76]
+
+/-- `top → a` (current `a 1`) `→ b → a 2`: the product-version graph is a DAG, the name graph has a cycle.
+`a 1`: `envPrepend(PATH, $DIR/1); setupRequired(b); envPrepend(PATH, $DIR/2); envSet(L, $DIR)` -/
+def dbD17 : Db :=
+  { decls := [
+      ⟨nTop, v1, [1], [(.always, .dep nA false false none none)]⟩,
+      ⟨nA, v1, [2], [(.always, .prepend PATH (.own [1]) false), (.always, .dep nB false false none none),
+                     (.always, .prepend PATH (.own [2]) false), (.always, .set ALATE (.own []))]⟩,
+      ⟨nB, v1, [3], [(.always, .dep nA false false (some (.explicit v2)) none)]⟩,
+      ⟨nA, v2, [4], [(.always, .prepend PATH (.own [1]) false)]⟩ ],
+    tags := [(tagCurrent, nTop, v1), (tagCurrent, nA, v1), (tagCurrent, nB, v1)] }
+
+def reqTop : Request := ⟨nTop, none, false, none, false, []⟩
+
+def envOf : Res → Option Setup.Env
+  | .ok s => some s.env
+  | _ => none
+
+/-- From the empty environment `setup top` succeeds and ends with `SETUP_A = a 2`, while `PATH` still holds
+`dir(a 1)/2`, `L = dir(a 1)`, and `b` — required by the set-up `a`… of version 1 — is not set up. -/
+theorem C01_nested_switch_witness :
+    envOf (runSetup dbD17 20 reqTop Setup.Env.empty) =
+      some ⟨[(nA, v2), (nTop, v1)], [(nA, .own (nA, v2) []), (nTop, .own (nTop, v1) [])],
+            [(PATH, [.own (nA, v1) [2], .own (nA, v2) [1]])], [(ALATE, .own (nA, v1) [])]⟩ := by
+  decide +kernel
+
+/-! ## non-vacuity: a diamond that switches `c 1 → c 2` inside one request -/
+
+/-- `top → a → c 1`, `top → b → c 2` -/
+def dbDiamond : Db :=
+  { decls := [
+      ⟨nTop, v1, [1], [(.always, .dep nA false false none none), (.always, .dep nB false false none none)]⟩,
+      ⟨nA, v1, [2], [(.always, .prepend PATH (.own [1]) false), (.always, .dep nC false false (some (.explicit v1)) none)]⟩,
+      ⟨nB, v1, [3], [(.always, .prepend PATH (.own [1]) false), (.always, .dep nC false false (some (.explicit v2)) none)]⟩,
+      ⟨nC, v1, [4], [(.always, .prepend PATH (.own [1]) false)]⟩,
+      ⟨nC, v2, [5], [(.always, .prepend PATH (.own [1]) false)]⟩ ],
+    tags := [(tagCurrent, nTop, v1), (tagCurrent, nA, v1), (tagCurrent, nB, v1), (tagCurrent, nC, v1)] }
+
+/-- the request succeeds, `c` ends at version 2 and no element of `c 1` is left -/
+theorem C01_nonvacuous :
+    envOf (runSetup dbDiamond 20 reqTop Setup.Env.empty) =
+      some ⟨[(nC, v2), (nB, v1), (nA, v1), (nTop, v1)],
+            [(nC, .own (nC, v2) []), (nB, .own (nB, v1) []), (nA, .own (nA, v1) []), (nTop, .own (nTop, v1) [])],
+            [(PATH, [.own (nC, v2) [1], .own (nB, v1) [1], .own (nA, v1) [1]])], []⟩ := by
+  decide +kernel
+
+/-! ## the hypotheses are satisfiable: the diamond database is a `NameDag`, the empty environment is `EnvOK` -/
+
+def rankDiamond (n : Name) : Nat := if n = nTop then 3 else if n = nA ∨ n = nB then 2 else if n = nC then 1 else 0
+
+example : NameDag dbDiamond rankDiamond := nameDag_of_check _ _ (by decide +kernel)
+
+example (cfg : Cfg) : EnvOK cfg Setup.Env.empty :=
+  ⟨by intro n v h; simp [Setup.Env.empty, Setup.Env.rec?, aget] at h,
+   ⟨by intro v p r h; simp [Setup.Env.empty, Setup.Env.pathOf, aget] at h,
+    by intro v p r h; simp [Setup.Env.empty, aget] at h, by intro n p r h; simp [Setup.Env.empty, aget] at h⟩,
+   ⟨by intro v p r h; simp [Setup.Env.empty, Setup.Env.pathOf, aget] at h,
+    by intro v p r h; simp [Setup.Env.empty, aget] at h, by intro n p r h; simp [Setup.Env.empty, aget] at h⟩⟩
+
+end EupsModel.C01
